@@ -12,6 +12,7 @@ Consequently equal optimal values / optimal projections / infeasible-unbounded s
 import Rooc.Proofs.LinC10
 import Rooc.Proofs.LinExamples
 import Rooc.Proofs.LinMain
+import Rooc.Proofs.LinCounter
 namespace Rooc.Props.C02
 open Rooc Rooc.Lin Rooc.Sem Rooc.LinP
 
@@ -59,6 +60,17 @@ theorem c02_partial {m : Model (Ext K)} {b : BoundsMap (Ext K)} {d : List (DomVa
     (∃ ρ' : String → K, (∀ x, inScope d x → ρ' x = ρ x) ∧ linFeasible lm ρ' = true ∧
         linObjective lm ρ' = some v) :=
   pl_objective hm hdom hbox h ρ hs v hv
+
+/-- non-vacuity with a real auxiliary and a source-feasible point: `min y s.t. abs{x} ≤ y`, `x ∈ [-1,2]`, at
+`x = 0, y = 0` (objective 0). -/
+example : ∃ (m : Model (Ext K)) (b : BoundsMap (Ext K)) (d : List (DomVar (Ext K))) (lm : LinModel (Ext K))
+    (ρ : String → K) (v : K),
+    linearizeWith m b d = .ok lm ∧ FragModel true m d ∧ DomRel m d ∧ BoxEnforced b d ∧
+      srcFeasible m ρ = true ∧ eval ρ m.objective = some v := by
+  obtain ⟨lm, h⟩ := exAbs_ok (K := K)
+  refine ⟨exAbs, exAbsBounds, exAbs.domain, lm, fun _ => 0, 0, h, exAbs_hyps.1, exAbs_hyps.2.1, exAbs_hyps.2.2, ?_, ?_⟩
+  · simp [srcFeasible, exAbs, constraintHolds, eval, kabs, cmpK, inDomain, geExt, leExt]
+  · simp [exAbs, eval]
 
 /-- the requirement chosen for the objective, spelled out. -/
 theorem objReq_cases (m : Model (Ext K)) (w v : K) :
